@@ -98,9 +98,12 @@ def tasks(tier):
     from . import c01_sdmx
     for n0, n1, ns in [(1, 0, 1), (2, 2, 2)] + ([(1, 2, 1), (2, 0, 2), (0, 1, 2), (2, 1, 2)] if tier == "thorough" else []):
         out.append(Task("L2s/SDMXBasePlan/n0=%d,n1=%d/nspin%d" % (n0, n1, ns), c01_sdmx.h_sdmx_plan, dict(n0=n0, n1=n1, nspin=ns), mods="numint"))
+    for kind in ("SADMPlan", "SDMXIntPlan"):
+        out.append(Task("L2s/%s" % kind, c01_sdmx.h_sdmx_plan_variant, dict(kind=kind), mods="numint"))
     from . import c01_occd
     out += c01_occd.tasks(tier)
     out.append(Task("L3s/EXXSphGenerator/no_l1", c01_sdmx.h_sdmx_generator, {}, mods="numint", timeout_ms=120000))
+    out.append(Task("L3s/EXXSphGenerator/no_l1/two_density_matrices", c01_sdmx.h_sdmx_generator, dict(nfeat=1, nset=2), mods="numint", timeout_ms=120000))
     try:
         from . import c01_l5
         out += c01_l5.tasks(tier)
@@ -121,7 +124,7 @@ def prepare(tier):
 META = dict(
     explanation="symbolic execution of the real orchestration code link by link; the returned energy term is differentiated "
                 "mechanically and z3 decides equality with the returned potentials on every path",
-    functions=['ciderpress/dft/plans.py: SemilocalPlan.get_occd, _fill_occd_npa_/_nst_, FracLaplPlan.get_occd, SemilocalPlan2.get_vxc (L2o)', "ciderpress/dft/plans.py: SDMXBasePlan.get_features / get_vxc (L2s); ciderpress/pyscf/sdmx.py: EXXSphGenerator.get_features, get_vxc_, _contract_ao_to_bas(_bwd), "
+    functions=['ciderpress/pyscf/sdmx.py: EXXSphGenerator.get_features / get_vxc_ with two density matrices in one call (L3s/*/two_density_matrices)', 'ciderpress/pyscf/numint.py: nr_rks / nr_uks (thorough: *_nldf) with an SDMX generator stub (L5/*/with_sdmx)', 'ciderpress/dft/plans.py: SemilocalPlan.get_occd, _fill_occd_npa_/_nst_, FracLaplPlan.get_occd, SemilocalPlan2.get_vxc (L2o)', "ciderpress/dft/plans.py: SDMXBasePlan.get_features / get_vxc (L2s); ciderpress/pyscf/sdmx.py: EXXSphGenerator.get_features, get_vxc_, _contract_ao_to_bas(_bwd), "
                "_contract_ao_to_bas_helper, _contract_ao_to_bas_single_, _eval_crho_potential + fast_sdmx.c SDMXcontract_ao_to_bas(_bwd) interpreted (L3s)",
                "ciderpress/pyscf/numint.py: CiderNumIntMixin.eval_xc_cider", "ciderpress/dft/plans.py: SemilocalPlan.get_feat/get_vxc, FracLaplPlan.get_feat/get_vxc, "
                "get_rho_tuple_with_grad_cross, vxc_tuple_to_array", "ciderpress/dft/settings.py: get_s2, ds2, get_alpha, dalpha",
